@@ -436,7 +436,7 @@ pub fn scenario(seed: u64, stepping: Option<Stepping>, long: bool) -> Made {
             6 | 7 => {
                 let base = *rng.pick(&hosts);
                 let name = case_variant(&mut rng, base);
-                let timeout = *rng.pick(&[None, None, None, Some(1u64), Some(1500), Some(3_600_000), Some(7000), Some(1001), Some(1003), Some(3002)]);
+                let timeout = *rng.pick(&[None, None, None, Some(1u64), Some(1500), Some(3_600_000), Some(7000), Some(1001), Some(1003), Some(3002), Some(0)]);
                 if let Some(c) = w.resolve_hostname(h, &name, timeout) {
                     open.push(c);
                 }
@@ -692,7 +692,7 @@ pub fn run_one(seed: u64, long: bool, l: &mut Local) {
 
 pub fn run(report: &Report, tier: &Tier) {
     report.set_rule(
-        "API histories of 3..11 calls among browse / browse_cache / stop_browse / resolve_hostname (no timeout, 1 ms, 1001 ms, 1003 ms, 1.5 s, 3002 ms, 7 s, 1 h; \
+        "API histories of 3..11 calls among browse / browse_cache / stop_browse / resolve_hostname (no timeout, 0, 1 ms, 1001 ms, 1003 ms, 1.5 s, 3002 ms, 7 s, 1 h; \
          lower, upper and mixed case) / stop_resolve_hostname / dropped receivers / shutdown, interleaved with announcements and host answers, \
          call times clustered around the retransmission instants (±1 ms); observed for 20 s or for 2-3 virtual hours after the last call; \
          lazy and eager stepping; plus stop_browse after 1..3 resolved instances (names and host names with capitals in half of the cases, a second browse of another type open or not): the hooked cache holds nothing of the stopped type afterwards (T7); distinct by (stepping, sequence of operation kinds)",
